@@ -27,7 +27,7 @@ fn check_desc(ctx: &Ctx, r: &R) {
     let got = match catch(|| r.real()) {
         Ok(b) => b,
         Err(m) => {
-            ctx.violation_sized(&format!("res:{}:panic", kind), 0, || format!("{:?} panicked: {}", r, m), || json!({"family":"res","desc":format!("{:?}", r)}));
+            ctx.violation_sized(&format!("res:{}:panic", kind), 0, || format!("{:?} panicked: {}", r, m), || json!({"family":"res","desc":format!("{:?}", r),"r":serde_json::to_value(r).unwrap_or_default()}));
             return;
         }
     };
@@ -43,7 +43,7 @@ fn check_desc(ctx: &Ctx, r: &R) {
                 &format!("res:{}:frame", kind),
                 0,
                 || format!("{:?} emits {} ({} bytes) whose own length field does not frame it: {:?}", r, hex(&got), got.len(), other.map(|i| i.iter().map(|x| (x.off, x.tag, x.payload)).collect::<Vec<_>>())),
-                || json!({"family":"res","desc":format!("{:?}", r)}),
+                || json!({"family":"res","desc":format!("{:?}", r),"r":serde_json::to_value(r).unwrap_or_default()}),
             );
             return;
         }
@@ -53,7 +53,7 @@ fn check_desc(ctx: &Ctx, r: &R) {
             &format!("res:{}:value", kind),
             0,
             || format!("{:?} emits {} ; specification encoding is {}", r, hex(&got), hex(&want)),
-            || json!({"family":"res","desc":format!("{:?}", r)}),
+            || json!({"family":"res","desc":format!("{:?}", r),"r":serde_json::to_value(r).unwrap_or_default()}),
         );
     }
 }
@@ -117,6 +117,24 @@ pub fn one_of_each() -> Vec<R> {
         R::As64(AsKind::Memory(3, false), 0x1_0000_0000, 0x1_ffff_ffff, Some(0x4000_0000_0000)),
         R::As64(AsKind::Io, 2, 3, None),
         R::As16(AsKind::Memory(2, true), 0x100, 0x1ff, None),
+    ]
+}
+
+/// descriptors whose own bytes coincide with the framing constants of the enclosing template:
+/// each ends in `79 00` (the end tag + checksum), so a template must not mistake payload for terminator
+pub fn lookalikes() -> Vec<R> {
+    vec![
+        R::Mem32Fixed(true, 0x1000, 0x0079_0000),
+        R::Io(0x10, 0x20, 0x79, 0),
+        R::Interrupt(true, false, true, false, 0x0079_0000),
+        R::Register(0, 8, 0, 1, 0x0079_0000_0000_0000),
+        R::As16(AsKind::Io, 0, 0x78, None),
+        R::As16(AsKind::Bus, 0x100, 0x178, None),
+        R::As32(AsKind::Memory(1, true), 0, 0x0078_ffff, Some(7)),
+        R::As64(AsKind::Memory(0, false), 1, 0x0079_0000_0000_0000, None),
+        // and ones that merely contain 79 00 inside, or start with it
+        R::Io(0x0079, 0x0079, 1, 1),
+        R::Interrupt(false, false, false, false, 0x0000_0079),
     ]
 }
 
@@ -224,6 +242,31 @@ pub fn run(ctx: &'static Ctx) {
     }
     let ns = seqs.len();
     seqs.par_iter().for_each(|s| check_template(ctx, s, "sequences<=3"));
+    // framing look-alikes: alone, and as first / middle / last child next to ordinary descriptors
+    let la = lookalikes();
+    let mut lseq: Vec<Vec<R>> = vec![];
+    for x in &la {
+        lseq.push(vec![x.clone()]);
+        lseq.push(vec![x.clone(), x.clone()]);
+        for a in &base {
+            lseq.push(vec![x.clone(), a.clone()]);
+            lseq.push(vec![a.clone(), x.clone()]);
+            for b in base.iter().step_by(3) {
+                lseq.push(vec![a.clone(), x.clone(), b.clone()]);
+                lseq.push(vec![a.clone(), b.clone(), x.clone()]);
+            }
+        }
+        for y in &la {
+            lseq.push(vec![x.clone(), y.clone()]);
+        }
+    }
+    let nl = lseq.len();
+    lseq.par_iter().for_each(|q| check_template(ctx, q, "framing-lookalikes"));
+    for x in &la {
+        check_desc(ctx, x);
+    }
+    ctx.st(nl as u64);
+    ctx.engine("E4.template-lookalikes", json!({"templates": nl, "what": "descriptors whose bytes end in / contain 79 00 placed alone, first, middle and last"}));
     // k identical descriptors for every k: payload sweeps 0..4200 and the size integer crosses 255/256 and 65535/65536
     let nk = AtomicU64::new(0);
     base.par_iter().for_each(|r| {
@@ -250,6 +293,32 @@ pub fn run(ctx: &'static Ctx) {
             nk.fetch_add(1, Ordering::Relaxed);
         }
     }
+    // every payload size: 8-byte (IO) and 9-byte (Extended Interrupt) descriptors combine to any total >= 56, and to many below
+    let mut sizes: Vec<usize> = (2..=1200).collect();
+    for c in [4096usize, 65_536, 1 << 20] {
+        if c < (1 << 20) || !ctx.quick() {
+            for d in 0..=24 {
+                sizes.push(c - 12 + d);
+            }
+        }
+    }
+    let nsz = AtomicU64::new(0);
+    sizes.par_iter().for_each(|p| {
+        let body = p - 2;
+        // smallest b with (body - 9b) divisible by 8
+        if let Some(b) = (0..8).find(|b| body >= 9 * b && (body - 9 * b) % 8 == 0) {
+            let a = (body - 9 * b) / 8;
+            let mut v = vec![R::Io(0x10, 0x20, 1, 2); a];
+            // spread the interrupts through the template
+            for i in 0..b {
+                v.insert((i * 3).min(v.len()), R::Interrupt(i % 2 == 0, true, false, i % 3 == 0, 0x100 + i as u32));
+            }
+            check_template(ctx, &v, "payload-size-sweep");
+            nsz.fetch_add(1, Ordering::Relaxed);
+        }
+    });
+    ctx.st(nsz.load(Ordering::Relaxed));
+    ctx.engine("E4.template-payload-sizes", json!({"templates": nsz.load(Ordering::Relaxed), "payload_sizes": "every size 2..=1200 reachable with 8- and 9-byte descriptors (all >= 58), and +-12 around 4096, 65536 (2^20 thorough)"}));
     ctx.engine("E4.templates", json!({"sequences_le3": ns, "k_identical_and_mixed": nk.load(Ordering::Relaxed)}));
     ctx.st(nd as u64 + ns as u64 + nk.load(Ordering::Relaxed));
     ctx.force_sample(json!({"desc": "QWordMemory(cacheable, rw, 0x1_0000_0000..0x1_ffff_ffff, translation 0)", "expected": "8a 2b00 00 0c 03 <gran 0> <min> <max> <tra> <len 0x1_0000_0000>"}));
